@@ -187,13 +187,18 @@ Proof.
   - apply forallb_ext_in. intros c Hc. now rewrite (H t r c).
 Qed.
 
-Lemma select_agree sel1 sel2 js n : agree_in sel1 sel2 n -> select sel1 js n = select sel2 js n.
+Lemma select_agree sel1 sel2 selp1 selp2 js n : agree_in sel1 sel2 n -> agree_in selp1 selp2 n ->
+  select sel1 selp1 js n = select sel2 selp2 js n.
 Proof.
-  intros H. apply filter_rows_ext_in. intros t r Ht Hr.
+  intros H HP. apply filter_rows_ext_in. intros t r Ht Hr.
   assert (K : kept_labels sel1 js n "pipe" = kept_labels sel2 js n "pipe").
   { apply flat_map_ext_in. intros t0 Ht0. destruct (String.eqb (t_name t0) "pipe"); auto.
     f_equal. apply filter_ext_in. intros r0 Hr0. now apply (keep_row_agree _ _ _ n). }
-  rewrite K, (keep_row_agree _ _ _ n t r H Ht Hr). reflexivity.
+  rewrite K, (keep_row_agree _ _ _ n t r H Ht Hr).
+  assert (F : forallb (fun c => negb (selp1 (t_name t) c) || memz (c_val c) (kept_labels sel2 js n "pipe")) (r_cells r) =
+              forallb (fun c => negb (selp2 (t_name t) c) || memz (c_val c) (kept_labels sel2 js n "pipe")) (r_cells r)).
+  { apply forallb_ext_in. intros c Hc. now rewrite (HP t r c). }
+  rewrite F. reflexivity.
 Qed.
 
 Lemma agree_in_filter_rows sel1 sel2 k n : agree_in sel1 sel2 n -> agree_in sel1 sel2 (filter_rows k n).
@@ -235,7 +240,7 @@ Proof.
   - apply relabel_agree. now apply sel_for_agree.
   - now apply cont_all_agree.
   - f_equal. apply redirect_agree. now apply agree_agree_in.
-  - apply select_agree. now apply agree_agree_in.
+  - apply select_agree; now apply agree_agree_in.
   - destruct cascade; auto. apply drop_elems_full_agree; apply agree_in_filter_rows; now apply agree_agree_in.
   - apply drop_elems_full_agree; now apply agree_agree_in.
   - f_equal. unfold drop_pipe_refs. apply drop_elems_agree. now apply agree_agree_in.
@@ -244,7 +249,7 @@ Qed.
 (* the hypotheses under which today's code meets the specification: the tuple set is exactly the set
    of junction-reference columns of the net, and pipe references live in valve.element *)
 Definition exact (cs : colset) (n : net) : Prop :=
-  allcells (fun tn col k => mem2 tn col cs = kind_is_kj k) n.
+  allcells (fun tn col k => selJ model_sem cs tn col k = kind_is_kj k) n.
 Definition pexact (n : net) : Prop :=
   allcells (fun tn col k => kind_is_kp k = true -> tn = "valve" /\ col = "element") n.
 
@@ -547,7 +552,7 @@ Proof.
   - unfold hit. rewrite (Hp "junction" r0 junction_special Hr0). reflexivity.
 Qed.
 
-Lemma select_RI_J f js n : plain n -> covers f n -> RI_J n -> RI_J (select (on_cell f) js n).
+Lemma select_RI_J f selp js n : plain n -> covers f n -> RI_J n -> RI_J (select (on_cell f) selp js n).
 Proof.
   intros Hp Hc H. apply filter_RI_J; auto. intros tn r c r0 Hr Hk Hcc Hkd Hr0 E.
   change (memz (r_label r0) js = true). rewrite E.
@@ -555,6 +560,7 @@ Proof.
   { rewrite (Hp tn r S Hr) in Hcc. contradiction. }
   unfold special in S. repeat (apply orb_false_iff in S; destruct S as [S ?]).
   rewrite S, H1, H0 in Hk. simpl in Hk. rewrite H2 in Hk.
+  apply andb_true_iff in Hk. destruct Hk as [Hk _].
   unfold keep_row in Hk. apply andb_true_iff in Hk. destruct Hk as [_ Hall].
   rewrite forallb_forall in Hall. specialize (Hall c Hcc).
   assert (Hsel : on_cell f tn c = true) by (unfold on_cell; apply (Hc tn r c Hr Hcc Hkd)).
@@ -828,7 +834,7 @@ Qed.
 Lemma exact_b_exact cs n : exact_b cs n = true -> exact cs n.
 Proof.
   intros H tn r c Hr Hc. pose proof (cells_ok_true _ _ H tn r c Hr Hc) as E. apply eqb_prop in E.
-  rewrite E. unfold is_kj. now destruct (c_kind c).
+  unfold on_cell in E. rewrite E. unfold is_kj. now destruct (c_kind c).
 Qed.
 
 (* ------------------------------------------------------------------ no dangling pipe reference after the
@@ -943,4 +949,144 @@ Proof.
       * apply Hc. now left.
       * destruct o; try discriminate; simpl; auto. now destruct cascade.
     + destruct (pexact_model_coversP n Hx) as [C U]. now apply step_drop_RI_P.
+Qed.
+
+(* ------------------------------------------------------------------ pipe references under EVERY operation
+   (since 4bbab2a the code no longer treats pipe references as junction references) *)
+(* the junction selector never selects a pipe reference *)
+Definition selJ_noP (f : selector) (n : net) : Prop := allcells (fun tn col k => f tn col k = true -> k <> KP) n.
+
+Lemma relabel_RI_P_same e rho sel n : fam e "pipe" = true ->
+  (forall tn r c, In r (rows_of tn n) -> In c (r_cells r) -> c_kind c = KP -> sel tn c = true) ->
+  RI_P n -> RI_P (relabel e rho sel n).
+Proof.
+  intros Hf Hs H tn r' c' Hr Hcc Hkd. rewrite labels_of_relabel, Hf.
+  unfold relabel in Hr. rewrite rows_of_map_rows in Hr. apply in_map_iff in Hr. destruct Hr as [r [<- Hr]].
+  simpl in Hcc. apply in_map_iff in Hcc. destruct Hcc as [c [<- Hcc]].
+  destruct (sel tn c) eqn:S.
+  - simpl in *. apply in_map. eapply H; eauto.
+  - rewrite (Hs tn r c Hr Hcc Hkd) in S. discriminate.
+Qed.
+
+Lemma relabel_RI_P_other e rho sel n : fam e "pipe" = false ->
+  (forall tn r c, In r (rows_of tn n) -> In c (r_cells r) -> sel tn c = true -> c_kind c <> KP) ->
+  RI_P n -> RI_P (relabel e rho sel n).
+Proof.
+  intros Hf Hs H tn r' c' Hr Hcc Hkd. rewrite labels_of_relabel, Hf.
+  unfold relabel in Hr. rewrite rows_of_map_rows in Hr. apply in_map_iff in Hr. destruct Hr as [r [<- Hr]].
+  simpl in Hcc. apply in_map_iff in Hcc. destruct Hcc as [c [<- Hcc]].
+  destruct (sel tn c) eqn:S.
+  - simpl in Hkd. exfalso. eapply Hs; eauto.
+  - eapply H; eauto.
+Qed.
+
+Definition elem_guard_p (e : string) : Prop := e = "junction" \/ e = "pipe" \/ (fam e "pipe" = false /\ e <> "junction" /\ e <> "pipe").
+
+Lemma relabel_sel_for_RI_P s cs e rho n : elem_guard_p e -> selJ_noP (selJ s cs) n -> coversP (selP s) n ->
+  RI_P n -> RI_P (relabel e rho (sel_for s cs e) n).
+Proof.
+  intros [-> | [-> | [Hf [N1 N2]]]] HJ HP H.
+  - apply relabel_RI_P_other; [reflexivity | | exact H]. intros tn r c Hr Hcc Hsel. simpl in Hsel.
+    unfold on_cell in Hsel. exact (HJ tn r c Hr Hcc Hsel).
+  - apply relabel_RI_P_same; [reflexivity | | exact H]. intros tn r c Hr Hcc Hk. simpl. unfold on_cell.
+    exact (HP tn r c Hr Hcc Hk).
+  - apply relabel_RI_P_other; [exact Hf | | exact H]. intros tn r c Hr Hcc Hsel. unfold sel_for in Hsel.
+    destruct (String.eqb e "junction") eqn:E1; [apply String.eqb_eq in E1; contradiction|].
+    destruct (String.eqb e "pipe") eqn:E2; [apply String.eqb_eq in E2; contradiction|]. discriminate.
+Qed.
+
+Lemma cont_all_RI_P s cs order start n : Forall elem_guard_p order -> selJ_noP (selJ s cs) n -> coversP (selP s) n ->
+  RI_P n -> RI_P (cont_all s cs order start n).
+Proof.
+  revert n. induction order as [|e r IH]; intros n HF HJ HP H; simpl; auto.
+  inversion HF; subst. apply IH; auto.
+  - unfold selJ_noP, cont_elem. now apply allcells_relabel.
+  - unfold coversP, cont_elem. now apply allcells_relabel.
+  - now apply relabel_sel_for_RI_P.
+Qed.
+
+Lemma fuse_RI_P f j1 js n : selJ_noP f n -> RI_P n ->
+  RI_P (drop_labels (fam "junction") js (redirect (on_cell f) j1 js n)).
+Proof.
+  intros HJ H. apply filter_RI_P.
+  - intros tn r' c' Hr Hcc Hkd. unfold redirect in *. rewrite labels_of_rows_of, rows_of_map_rows, map_map. simpl.
+    rewrite rows_of_map_rows in Hr. apply in_map_iff in Hr. destruct Hr as [r [<- Hr]].
+    simpl in Hcc. apply in_map_iff in Hcc. destruct Hcc as [c [<- Hcc]].
+    rewrite <- labels_of_rows_of.
+    destruct (on_cell f tn c && memz (c_val c) js) eqn:B.
+    + simpl in Hkd. apply andb_true_iff in B. destruct B as [B _]. unfold on_cell in B.
+      exfalso. exact (HJ tn r c Hr Hcc B Hkd).
+    + eapply H; eauto.
+  - intros. reflexivity.
+Qed.
+
+Lemma kept_labels_rows_of sel js n e : kept_labels sel js n e = map r_label (filter (keep_row sel js e) (rows_of e n)).
+Proof.
+  induction n as [|t n IH]; simpl; auto. rewrite filter_app, map_app, <- IH. f_equal.
+  destruct (String.eqb (t_name t) e) eqn:E; simpl; auto. apply String.eqb_eq in E. now subst.
+Qed.
+
+Lemma select_RI_P sel f js n : plain n -> coversP f n -> pipe_unhit f n -> RI_P n ->
+  RI_P (select sel (on_cell f) js n).
+Proof.
+  intros Hp Hc Hu H tn r c Hr Hcc Hkd. unfold select in *.
+  rewrite rows_of_filter_rows in Hr. apply filter_In in Hr. destruct Hr as [Hr Hk].
+  destruct (special tn) eqn:S.
+  { rewrite (Hp tn r S Hr) in Hcc. contradiction. }
+  unfold special in S. repeat (apply orb_false_iff in S; destruct S as [S ?]).
+  rewrite S, H1, H0 in Hk. simpl in Hk. rewrite H2 in Hk.
+  apply andb_true_iff in Hk. destruct Hk as [_ Hall]. rewrite forallb_forall in Hall. specialize (Hall c Hcc).
+  assert (Hsel : on_cell f tn c = true) by (unfold on_cell; apply (Hc tn r c Hr Hcc Hkd)).
+  rewrite Hsel in Hall. simpl in Hall. apply memz_In in Hall.
+  rewrite kept_labels_rows_of in Hall. apply in_map_iff in Hall. destruct Hall as [r0 [E Hr0]].
+  apply filter_In in Hr0. destruct Hr0 as [Hr0 Hk0].
+  rewrite labels_of_rows_of, rows_of_filter_rows. apply in_map_iff. exists r0. split; auto.
+  apply filter_In. split; auto. change (keep_row sel js "pipe" r0 &&
+    forallb (fun c0 => negb (on_cell f "pipe" c0) || memz (c_val c0) (kept_labels sel js n "pipe")) (r_cells r0) = true).
+  rewrite Hk0. simpl. apply forallb_forall. intros c0 Hc0. unfold on_cell.
+  rewrite (Hu "pipe" r0 c0 Hr0 Hc0 eq_refl). reflexivity.
+Qed.
+
+Definition ri_guard_p (o : op) : Prop :=
+  match o with
+  | Reindex _ e _ | ContElem _ e _ => elem_guard_p e
+  | ContAll _ order _ => Forall elem_guard_p order
+  | DropJ _ _ cascade => cascade = true
+  | _ => True
+  end.
+
+Lemma step_RI_P s o n : plain n -> selJ_noP (selJ s (cs_of o)) n -> coversP (selP s) n -> pipe_unhit (selP s) n ->
+  ri_guard_p o -> RI_P n -> RI_P (step s o n).
+Proof.
+  intros Hp HJ HP Hu Hg H. destruct o; simpl in *.
+  - now apply relabel_sel_for_RI_P.
+  - now apply relabel_sel_for_RI_P.
+  - now apply cont_all_RI_P.
+  - now apply fuse_RI_P.
+  - now apply select_RI_P.
+  - subst cascade. now apply (step_drop_RI_P s (DropJ cs js true)).
+  - now apply (step_drop_RI_P s (DropElems cs js)).
+  - now apply (step_drop_RI_P s (DropP ps)).
+Qed.
+
+(* for today's code both selector hypotheses follow from "pipe references live in valve.element" *)
+Lemma pexact_model_noP cs n : pexact n -> selJ_noP (selJ model_sem cs) n.
+Proof.
+  intros H tn r c Hr Hc. simpl. intros Hs K. specialize (H tn r c Hr Hc). simpl in H. rewrite K in H.
+  destruct (H eq_refl) as [E1 E2]. rewrite E1, E2, K in Hs. simpl in Hs. now rewrite andb_false_r in Hs.
+Qed.
+
+Fixpoint guards_p (ops : list op) : Prop := match ops with [] => True | o :: r => ri_guard_p o /\ guards_p r end.
+
+Lemma exec_RI_full ops n : plain n -> pexact n -> (forall o, In o ops -> cover_hyp model_sem o n) ->
+  guards model_sem ops n -> guards_p ops -> RI n -> RI (exec model_sem ops n).
+Proof.
+  revert n. induction ops as [|o r IH]; intros n Hp Hx Hc Hg Hgp [HJ HP]; simpl; [split; auto|].
+  destruct Hg as [G1 G2]. destruct Hgp as [P1 P2]. apply IH; auto.
+  - now apply plain_step.
+  - unfold pexact. now apply allcells_step.
+  - intros o' Ho'. apply cover_hyp_step. apply Hc. now right.
+  - split.
+    + apply step_RI_J; auto; [exact model_sem_sane | apply Hc; now left].
+    + destruct (pexact_model_coversP n Hx) as [C U]. apply step_RI_P; auto. now apply pexact_model_noP.
 Qed.
